@@ -21,10 +21,18 @@ void opcase_init(opcase_t *c, const op_t *op) {
 }
 
 void opcase_place(opcase_t *c, rng_t *r, int policy) {
+  if (c->shared_union && c->plc[c->shared_slot[0]] < 0 && c->plc[c->shared_slot[1]] < 0) { /* not when a placement is forced (standalone reference runs) */
+    c->host = opnd_make(r, c->shared_union, rng_chance(r, 1, 2) ? PL_WIN_EVEN : PL_WIN_ODD);
+    for (int k = 0; k < 2; k++) {
+      int i = c->shared_slot[k];
+      c->o[i] = opnd_make_in_parent(c->host, c->in[i]->m, c->in[i]->n);
+    }
+  }
   for (int i = 0; i < MAXSLOT; i++) {
     if (c->op->role[i] == R_NONE) continue;
     if (c->same_as[i] >= 0) continue;
     if (!c->in[i]) continue; /* NULL destination */
+    if (c->o[i]) continue;   /* already placed (shared parent) */
     int kind = c->plc[i];
     if (kind < 0) {
       if (policy == 0 || (c->op->flags & OPF_NOWIN))
@@ -150,6 +158,9 @@ void opcase_clone_inputs(opcase_t *dst, const opcase_t *src) {
     dst->plc[i] = src->plc[i];
     dst->overwr[i] = src->overwr[i];
   }
+  dst->shared_union = src->shared_union ? rm_copy(src->shared_union) : NULL;
+  dst->shared_slot[0] = src->shared_slot[0];
+  dst->shared_slot[1] = src->shared_slot[1];
   memcpy(dst->ip, src->ip, sizeof src->ip);
   memcpy(dst->dp, src->dp, sizeof src->dp);
   for (int k = 0; k < 2; k++) {
@@ -176,6 +187,10 @@ void opcase_cleanup(opcase_t *c) {
     if (c->o[i] && c->same_as[i] < 0) opnd_free(c->o[i]);
     c->o[i] = NULL;
   }
+  if (c->host) opnd_free(c->host);
+  c->host = NULL;
+  rm_free(c->shared_union);
+  c->shared_union = NULL;
   if (c->P) mzp_free(c->P);
   if (c->Q) mzp_free(c->Q);
   c->P = c->Q = NULL;
